@@ -1,4 +1,5 @@
 import Tx3Proofs.C08
+import Tx3Proofs.C08Lang
 #print axioms Tx3.indexOf?_get
 #print axioms Tx3.C08_spend_sound
 #print axioms Tx3.insertRedeemer_keeps
@@ -8,3 +9,5 @@ import Tx3Proofs.C08
 #print axioms Tx3.C08_mint_sound
 #print axioms Tx3.C08_reward_sound
 #print axioms Tx3.C08_redeemers_sound
+#print axioms Tx3.Lang.C08_redeemer_position_immaterial
+#print axioms Tx3.Lang.C08_policy_name_as_data
